@@ -150,6 +150,7 @@ func valuePool() []*variants.Variant {
 		variants.VariantFromBoolean(true), variants.VariantFromBoolean(false),
 		variants.VariantFromDateTime(time.Unix(0, 0).UTC()), variants.VariantFromDateTime(time.Unix(1614834367, 0).UTC()), variants.VariantFromDateTime(time.Unix(-86400, 500).UTC()),
 		variants.VariantFromDateTime(time.Unix(1614834367, 0).In(time.FixedZone("z", 19800))), variants.VariantFromLong(1614834367),
+		variants.VariantFromDateTime(time.Date(2020, 1, 5, 1, 30, 0, 0, time.FixedZone("e", 5*3600))), variants.VariantFromDateTime(time.Date(2020, 1, 4, 22, 30, 0, 0, time.FixedZone("w", -8*3600))),
 		// witnesses of double rounding (int64 -> float64 -> float32 differs from int64 -> float32) and of float32 / float64 ties
 		variants.VariantFromLong(1<<60 + 1<<36 + 1), mk(1<<60 + 1<<36 + 1), variants.VariantFromLong(-(1<<60 + 1<<36 + 1)), variants.VariantFromLong(1<<24 + 1), variants.VariantFromLong(1<<53 + 1),
 		variants.VariantFromDouble(16777217), variants.VariantFromDouble(0.1), variants.VariantFromFloat(0.1),
